@@ -347,6 +347,21 @@ def helpers(chk):
                     bad.append(('record', '%s (%s): iterating %s%s yields %s' % (cls.__name__, order, cls.__name__, f, list(x))))
                 elif any(('%r' % (v,)) not in repr(x) for v in f) or not repr(x).startswith(cls.__name__ + '('):
                     bad.append(('record', '%s (%s): repr %s does not show every field of %s' % (cls.__name__, order, repr(x), f)))
+        # a record and an instance of a SUBCLASS with the same inherited field values are different records, in both directions
+        # (comparison is field-wise within one type), whatever the subclass adds
+        from minecraft.networking.packets.clientbound.play import PlayerListItemPacket as PLI
+        u = str(uuid.UUID(int=rng.getrandbits(128)))
+        pairs = [(Base(a=1, b=2), Child(a=1, b=2, c=None)), (Child(a=1, b=2, c=3), GrandChild(a=1, b=2, c=3, d=None, e=None)),
+                 (PositionAndLook(x=1, y=2, z=3, yaw=4, pitch=5), PALX(x=1, y=2, z=3, yaw=4, pitch=5, on_ground=None))]
+        for sub in PLI.Action.__subclasses__():
+            try:
+                pairs.append((PLI.Action(uuid=u), sub(uuid=u)))
+            except Exception:
+                pass
+        for x, y in pairs:
+            chk.count('record-subclass', [order, 'base-vs-subclass', type(x).__name__, type(y).__name__], True)
+            if x == y or y == x or not (x != y) or not (y != x):
+                bad.append(('record', '%r and %r (an instance of a subclass with equal inherited fields) compare equal' % (x, y)))
     # aliases
     ctx = ConnectionContext(protocol_version=757)
     for _ in range(100):
